@@ -29,13 +29,25 @@ TRUSTED_COMMON = [
 ]
 
 
+def _limit_memory():
+    """address-space cap for every child (harness binaries, coqc, ocaml drivers): a seeded or real defect that corrupts the heap
+    can make a harness allocate without bound (observed: 45 GB); the run then ends with an allocation failure / abort,
+    which the caller reports, instead of exhausting the machine"""
+    try:
+        import resource
+        gb = int(os.environ.get('VERIF_MEM_GB', '12'))
+        resource.setrlimit(resource.RLIMIT_AS, (gb << 30, gb << 30))
+    except Exception:
+        pass
+
+
 def sh(cmd, timeout=600, cwd=None, env=None, input=None):
     e = dict(os.environ)
     if env:
         e.update(env)
     try:
         p = subprocess.run(cmd, shell=isinstance(cmd, str), cwd=cwd, env=e, input=input,
-                           capture_output=True, text=True, timeout=timeout)
+                           capture_output=True, text=True, timeout=timeout, preexec_fn=_limit_memory)
         return p.returncode, p.stdout, p.stderr
     except subprocess.TimeoutExpired as ex:
         out = ex.stdout.decode() if isinstance(ex.stdout, bytes) else (ex.stdout or '')
